@@ -5,10 +5,6 @@ import "math/big"
 // C01-1: scalar reduction kernels against their mathematical definition (radix-multiplied congruences) and
 // documented output ranges, for every modulus of the set 𝒬, all 64-bit inputs inside the documented range.
 
-func vB(x uint64) *big.Int { return new(big.Int).SetUint64(x) }
-
-func vShl64(x uint64) *big.Int { return new(big.Int).Lsh(vB(x), 64) }
-
 func VerifH_C01_MRed() {
 	vConfig("backend", "int")
 	for _, q := range VerifSetup_Moduli(vTier()) {
